@@ -483,16 +483,22 @@ class RangeNode(SyntaxNode):
                                           boost=self.boost)
                     if q is not None:
                         return attach(q, self)
-                except QueryParserError:
+                except Exception:
+                    # As in QueryParser.term_query(), the field could not make
+                    # sense of the text
                     e = sys.exc_info()[1]
                     return attach(query.error_query(e), self)
 
-            if start:
-                start = get_single_text(field, start, tokenize=False,
-                                        removestops=False)
-            if end:
-                end = get_single_text(field, end, tokenize=False,
-                                      removestops=False)
+            try:
+                if start:
+                    start = get_single_text(field, start, tokenize=False,
+                                            removestops=False)
+                if end:
+                    end = get_single_text(field, end, tokenize=False,
+                                          removestops=False)
+            except Exception:
+                e = sys.exc_info()[1]
+                return attach(query.error_query(e), self)
 
         q = query.TermRange(fieldname, start, end, self.startexcl,
                             self.endexcl, boost=self.boost)
